@@ -64,7 +64,9 @@ def run_history(args):
                 obj = len(objects)
                 objects.append((cls, msg_text, mo))
             step['obj'] = obj
-            direct = live and not step['completed_before'] and rng.random() < 0.12
+            # (msg.merge(ro) on a COMPLETED running order bypasses the guard of `+`; the accessor checks follow it there too,
+            # the merge-family checks do not: the model of `+` refuses)
+            direct = live and ((not step['completed_before'] and rng.random() < 0.12) or (views and step['completed_before'] and rng.random() < 0.4))
             step['obs'] = impl.add(ro, mo, via='merge' if direct else 'add')
             step['via'] = 'merge' if direct else 'add'
             step['kind'] = kc['kind']
@@ -267,6 +269,47 @@ def _fault_then_valid_plans():
                 for vi, v in enumerate(valids):
                     plans.append((f'items {a},{b},{x!r} fail#{fi} valid#{vi}', ro(), [f, v]))
     return plans
+
+
+def _big_plans():
+    """Histories on running orders beyond every plausible size threshold (2100 stories, a 2100-item story): an edit that
+    keeps the number of children, then messages that look the edited and other elements up again."""
+    from . import build as B
+    n = 2100
+    ro = B.ro_doc([B.story(f'S{k}', [B.item(f'S{k}-a')]) for k in range(n)], message_id='1')
+    X = lambda i: B.story(i, [B.item(i + '-new')])
+    plans = [
+        ('1-for-1 replace then move of the replaced story', ro,
+         [('EAStoryReplace', B.ea('REPLACE', {'storyID': 'S5'}, [[X('S5')]], message_id='10')),
+          ('EAStoryMove', B.ea('MOVE', {'storyID': 'S9'}, [B.ids('storyID', ['S7', 'S5'])], message_id='11')),
+          ('EAStorySwap', B.ea('SWAP', B.ABSENT, [B.ids('storyID', ['S5', 'S2090'])], message_id='12')),
+          ('StoryDelete', B.story_delete(['S2090', 'S5', 'S2099'], message_id='13')),
+          ('EAStoryInsert', B.ea('INSERT', {'storyID': B.BLANK}, [[X('END1'), X('END2')]], message_id='14')),
+          ('StoryInsert', B.story_insert(B.BLANK, [X('END3')], message_id='15')), ('StoryAppend', B.story_append([X('END4')], message_id='16')),
+          ('EAStoryInsert', B.ea('INSERT', B.ABSENT, [[X('END5')]], message_id='17'))]),
+        ('send, swap and move keep the count; then item edits in them', ro,
+         [('StorySend', B.story_send('S2050', [B.p('sent'), B.item('n1'), B.item('n2')], message_id='10')),
+          ('EAStorySwap', B.ea('SWAP', B.ABSENT, [B.ids('storyID', ['S2050', 'S3'])], message_id='11')),
+          ('StoryMove', B.story_move(['S2050', 'S2050'], message_id='12')),
+          ('ItemMoveMultiple', B.item_move_multiple('S2050', ['n2', 'n1'], message_id='13')),
+          ('StoryMove', B.story_move(['S2099', 'S0'], message_id='14')),
+          ('EAStoryMove', B.ea('MOVE', {'storyID': 'S1'}, [B.ids('storyID', ['S2098', 'S2050', 'S2097'])], message_id='15'))]),
+        ('replace with the same ID twice, then delete', ro,
+         [('StoryReplace', B.story_replace('S2000', [X('S2000')], message_id='10')), ('StoryReplace', B.story_replace('S2000', [X('S2000')], message_id='11')),
+          ('EAStoryDelete', B.ea('DELETE', B.ABSENT, [B.ids('storyID', ['S1999', 'S2000', 'S2001'])], message_id='12'))]),
+    ]
+    wide = B.ro_doc([B.story('A', []), B.story('W', [B.item(f'w{k}') for k in range(n)]), B.story('C', [])], message_id='1')
+    plans.append(('2100-item story: replace 1-for-1, then move and swap', wide,
+                  [('ItemReplace', B.item_replace('W', 'w5', [B.item('w5')], message_id='10')),
+                   ('EAItemMove', B.ea('MOVE', {'storyID': 'W', 'itemID': 'w9'}, [B.ids('itemID', ['w7', 'w5'])], message_id='11')),
+                   ('EAItemSwap', B.ea('SWAP', {'storyID': 'W'}, [B.ids('itemID', ['w5', 'w2090'])], message_id='12')),
+                   ('ItemMoveMultiple', B.item_move_multiple('W', ['w2090', 'w2090'], message_id='13')),
+                   ('ItemDelete', B.item_delete('W', ['w2099', 'w5', 'w0'], message_id='14'))]))
+    return plans
+
+
+def run_big_histories(views=False):
+    return _run_plans(_big_plans(), 'big:', views)
 
 
 def run_reuse_histories(views=False):
